@@ -1452,7 +1452,12 @@ func (db *DB) checkpointIfNeeded(ctx context.Context, exec *syncExecutor, origWA
 	}
 
 	// Priority 2: Regular checkpoint at min threshold (PASSIVE mode)
-	if newWALSize >= calcWALSize(uint32(db.pageSize), uint32(db.MinCheckpointPageN)) {
+	// A WAL that holds only the bookkeeping frame written by the previous
+	// checkpoint is never checkpointed: with MinCheckpointPageN <= 1 that
+	// frame alone reaches the threshold and every idle sync would otherwise
+	// checkpoint again and create another LTX file.
+	if newWALSize >= calcWALSize(uint32(db.pageSize), uint32(db.MinCheckpointPageN)) &&
+		newWALSize > calcWALSize(uint32(db.pageSize), 1) {
 		if _, err := db.checkpointWithExecutor(ctx, CheckpointModePassive, exec); err != nil {
 			// PASSIVE checkpoints can fail with SQLITE_BUSY when database is locked.
 			// This is expected behavior and not an error - just log and continue.
